@@ -801,6 +801,15 @@ func (s *sys) Canon() string {
 func main() {
 	gomega.RegisterFailHandler(func(m string, _ ...int) { panic("gomega: " + m) })
 	r := vk.New("C15", "model_checking")
+	// this harness bounds every call of the code under test with its own limits (and confirms
+	// a miss on a dedicated re-run), so the supervisor's stall watchdog only has to see that
+	// the process is alive
+	go func() {
+		for {
+			vk.Beat()
+			time.Sleep(5 * time.Second)
+		}
+	}()
 	var scs []scenario
 	seedIdx := []string{"mk 1 1 idx a -"}
 	if r.Quick() {
